@@ -493,7 +493,42 @@ def c_duration_mul_const(site, fx):
     if site.family != "duration" or not site.what.endswith("mul_f32"):
         return False
     c = deep_strip(site.ops[1]) if len(site.ops) > 1 else None
-    return isinstance(c, tuple) and c[0] == "const" and isinstance(c[1], float) and 0.0 <= c[1] <= 16.0
+    if isinstance(c, tuple) and c[0] == "const" and isinstance(c[1], float) and 0.0 <= c[1] <= 16.0:
+        return True
+    # the factor is a parameter of a local closure / private helper: a constant in range at every call site
+    if isinstance(c, tuple) and len(c) >= 2 and c[0] == "arg" and isinstance(c[1], int):
+        callers = [x for x in fx.callers_of(lambda nm: fx.body(nm) is not None and fx.body(nm).name == site.body.name) if "::tests::" not in x[0].name]
+        if not callers:
+            return False
+        for (cb, bb, t) in callers:
+            if c[1] > len(t["args"]):
+                return False
+            a = deep_strip(cb.expr(t["args"][c[1] - 1], expand_named=True, at=bb))
+            if isinstance(a, tuple) and a and a[0] == "agg" and a[1] == "tuple" and len(a[2]) == 1:
+                a = deep_strip(a[2][0])
+            if not (isinstance(a, tuple) and a and a[0] == "const" and isinstance(a[1], float) and 0.0 <= a[1] <= 16.0):
+                return False
+        return True
+    return False
+
+
+def c_clamp_const(site, fx):
+    # x.clamp(lo, hi) with constant bounds lo <= hi
+    if site.family != "clamp" or len(site.ops) < 3:
+        return False
+    lo, hi = deep_strip(site.ops[1]), deep_strip(site.ops[2])
+    def cv(e):
+        if isinstance(e, tuple) and e and e[0] == "const" and isinstance(e[1], (int, float)) and not isinstance(e[1], bool):
+            return e[1]
+        if isinstance(e, tuple) and e and e[0] == "constpath":
+            c = [v for k, v in fx.consts.items() if norm(k) == e[1]]
+            if c and isinstance(c[0].get("int"), int):
+                return c[0]["int"]
+        if isinstance(e, tuple) and e and e[0] == "agg" and len(e[2]) == 1:
+            return cv(deep_strip(e[2][0]))  # a one-field wrapper of a constant (Eval(..))
+        return None
+    a, b = cv(lo), cv(hi)
+    return a is not None and b is not None and a <= b
 
 
 def c_duration_add(site, fx):
@@ -619,6 +654,7 @@ CLASSES = [
     ("magic-shift", c_magic_shift, "shift by the constant 64 - bits", "belief"),
     ("move-flags", c_move_flags, "flag nibble written from a Flags value; word non-zero (C01-FLAGS)", "belief"),
     ("pv-len", c_pv_len, "length of an ArrayVec with capacity 255 fits u8", "checked"),
+    ("clamp-const-bounds", c_clamp_const, "clamp between constant bounds lo <= hi (the assertion min <= max cannot fail)", "checked"),
     ("duration-mul-const", c_duration_mul_const, "Duration::mul_f32 by a constant factor in [0, 16]", "checked"),
     ("duration-add", c_duration_add, "sum of GUI-supplied durations scaled by small constants", "belief"),
     ("movestogo-nonzero", c_duration_div_movestogo, "ASSUMPTION: movestogo >= 1 (UCI protocol; the stated domain of C14)", "assumption"),
